@@ -23,7 +23,7 @@ OPEN = {
     "C04": ["ufloat_rt x (FRAME-RATE) / float_rt x (TIME-OFFSET) for every f32 with at most 3 decimals: C04_roundtrip holds for every parse result under this decidable hypothesis on the modelled std float conversions; the hypothesis itself is not a theorem (evaluated on examples, exercised by the correspondence check)"],
     "C05": ["C05_cost: cost_parse s <= c1*|s| + c2*|items s|*K s -- no cost model was built; time scaling is MEASURED in the thorough tier (five input families at n and 4n, evidence field streams.time_scaling), not proved"],
     "C12": ["C12_restyle as ONE theorem over whole playlists: forall sty1 sty2 a, parse (render sty1 a) = parse (render sty2 a) -- proved per transformation: CRLF, blank lines, line padding, comments, redundant version tags, unknown tags (arbitrary text / item lists), and, for every attribute-list parser, any attribute order + any padding + unknown attributes (C12_any_attribute_syntax); the relative order of playlist-level tags and of the non-key tags of a segment is C12_tag_order (item level, media playlists; EXT-X-KEY and DISCONTINUITY-SEQUENCE excluded because they are position dependent); for master playlists the five lists are independent by construction (C02_source_order)"],
-    "C14": ["C14_T for EXT-X-KEY / STREAM-INF as an iff over all attribute lists: only the invariant direction is proved for keys; stream tags are by typing (BANDWIDTH / URI are required fields of the result)"],
+    "C14": ["C14_T for STREAM-INF / I-FRAME-STREAM-INF as an iff over all attribute lists: stream tags are by typing (BANDWIDTH / URI are required fields of the result); keys are an iff since C14_key_iff"],
     "C16": ["C16_slide is proved for the restatement the WRITER produces for the slid value (keys and maps re-announced by the library itself); a server that restates tags differently (e.g. repeats all keys in another order) is covered by C06/C12 only; wf_media carries the float/duration hypotheses"],
     "C18": ["C18_float / C18_ufloat / C18_duration: parse (print v) = v for every finite f32 and every duration below 10^6 s -- rests on the modelled std float conversions; enters the tag theorems as the decidable hypotheses float_rt / ufloat_rt / dur_rt (evaluated on sample values in C18_float_hypotheses), validated by correspondence and sweep, not proved"],
     "C20": ["C20_ops: run_builder (the call sequence for a content) = build (builder_of ...) -- the step from a sequence of public builder CALLS (setters, push_segment / segments, tag arguments given as text) to the builder record is proved for the setters (commute / last wins) and the slot vector; that the calls for a content produce exactly `builder_of p raws` is sampled by the correspondence check, not proved; C20_rebuild / C20_paths_agree are stated on the builder record"],
@@ -52,7 +52,7 @@ class Prop:
     rule = ""
 
     def proof_targets(self):
-        return ["Properties/%s.vo" % self.pid]
+        return ["Properties/%s.vo" % self.pid] + ["Properties/%s.vo" % x for x in vlib.EXTRA_PROPERTY_FILES.get(self.pid, [])]
 
     def correspondence_obligations(self):
         return ["corr:%s:model=impl on the property's projection" % self.pid]
